@@ -172,8 +172,33 @@ def run_fmap(c):
     return {"obs": out, "extra": {}}
 
 
+def run_seqmap(c):
+    """make_seq_feature_map of one alignment span at a time (and of all of them, with a lost span in between, as one map)"""
+    from cogent3.core.location import FeatureMap, LostSpan, Span
+
+    mask = c["mask"]
+    m = mk(mask)
+    n = len(mask)
+
+    def one(spans):
+        afm = FeatureMap(spans=spans, parent_length=n)
+        r = m.make_seq_feature_map(afm)
+        return [[[int(s.start), int(s.end)] for s in r.spans if not s.lost], int(r.parent_length), any(s.lost for s in r.spans)]
+
+    out = []
+    for s, e, rev in c["spans"]:
+        r = observe(one, [Span(s, e, reverse=bool(rev))])
+        out.append(r if isinstance(r, Exc) else r[0])
+    allr = observe(one, [x for s, e, rev in c["spans"] for x in (Span(s, e, reverse=bool(rev)), LostSpan(2))])
+    out.append(allr if isinstance(allr, Exc) else allr[1])
+    extra = {"all_at_once": allr if isinstance(allr, Exc) else [allr[0], allr[2]]}
+    return {"obs": out, "extra": extra}
+
+
 def run_case(c):
     kind = c["kind"]
+    if kind == "seqmap":
+        return run_seqmap(c)
     if kind == "unary":
         return run_unary(c)
     if kind == "binary":
